@@ -108,6 +108,30 @@ def oracle(ctx, widen=1):
                     ub1.set_u(Rz @ np.asarray(ub1.U))
                 return sol(ub1, c3, hkl, wl)
             rel["d-inplace"] = inplace
+
+            def inplace_miscut():
+                # the re-mounting expressed as an added miscut about the phi axis
+                ub1 = mk(rot=rot)
+                sol(ub1, cons, hkl, wl)
+                with quiet():
+                    ub1.set_miscut((0, 0, 1), eps, True)
+                return sol(ub1, c3, hkl, wl)
+            rel["d-miscut"] = inplace_miscut
+
+            def inplace_scale(form):
+                # the same object: orientation set, queried, then the cell replaced by the scaled cell (numeric or named-system call form)
+                def f():
+                    ub1 = mk(rot=rot)
+                    sol(ub1, cons, hkl, wl)
+                    with quiet():
+                        if form == "numeric":
+                            ub1.set_lattice("x", 4.1 * sc, 5.2 * sc, 6.3 * sc, 80, 95, 100)
+                        else:
+                            ub1.set_lattice("x", "Triclinic", 4.1 * sc, 5.2 * sc, 6.3 * sc, 80, 95, 100)
+                    return sol(ub1, cons, hkl, wl * sc)
+                return f
+            rel["a-inplace-numeric"] = inplace_scale("numeric")
+            rel["a-inplace-named"] = inplace_scale("named")
             for name, f in rel.items():
                 got = f()
                 ok = same(got, base, eps if name.startswith("d") else 0.0)
@@ -119,7 +143,10 @@ def oracle(ctx, widen=1):
                     if not PL.stable(lambda v: HklCalculation(ubb, Constraints(v)), cons, hkl, wl, "full"):
                         continue
                     what = {"a": f"cell and wavelength scaled by {sc}", "b": f"hkl x {nn}, wavelength / {nn}", "c": "360 deg added to a constraint value",
-                            "d": f"crystal remounted by {eps} deg about phi", "d-inplace": f"crystal remounted in place (set_u on the same object after a query) by {eps} deg about phi"}[name]
+                            "d": f"crystal remounted by {eps} deg about phi", "d-inplace": f"crystal remounted in place (set_u on the same object after a query) by {eps} deg about phi",
+                            "d-miscut": f"crystal remounted in place by set_miscut((0,0,1), {eps}, add_miscut=True)",
+                            "a-inplace-numeric": f"cell replaced in place by the cell scaled by {sc} (six numbers), wavelength scaled",
+                            "a-inplace-named": f"cell replaced in place by the cell scaled by {sc} (system name + six numbers), wavelength scaled"}[name]
                     ctx.violation(f"mode {list(tr)} values { {k: (v if v is True else round(v, 4)) for k, v in cons.items()} } hkl={tuple(round(x, 4) for x in hkl)}: {what} changes the solutions: "
                                   f"{got if isinstance(got, str) else [tuple(round(x, 3) for x in p) for p in got][:3]} vs base {base if isinstance(base, str) else [tuple(round(x, 3) for x in p) for p in base][:3]}",
                                   {"constraints": cons, "hkl": list(hkl), "relation": name, "rot": rot, "scale": sc, "n": nn, "eps": eps},
